@@ -45,6 +45,9 @@ type Stack struct {
 	CutClientWritesAfter int
 	// ReuseNoise: one NoiseGrpcConn per side for all connections of the session, as the product does
 	// (it is the gRPC transport-credentials object); otherwise a fresh one per attempt
+	// CurSID: the rendezvous the connection handed out last is running on (a pairing handshake
+	// changes what ConnData.SID() returns, but only the next connection moves)
+	CurSID             [64]byte
 	ReuseNoise         bool
 	noiseSrv, noiseCli *mailbox.NoiseGrpcConn
 	closeOnce          sync.Once
@@ -192,6 +195,13 @@ func (s *Stack) ConnectRetry(attempts int) (srv, cli SecureConn, tries int) {
 				mu.Unlock()
 				time.Sleep(100 * time.Millisecond)
 				continue
+			}
+			if isServer {
+				if sid, e := s.SrvData.SID(); e == nil {
+					mu.Lock()
+					s.CurSID = sid
+					mu.Unlock()
+				}
 			}
 			if isServer && s.EagerAccept && s.PendingAccept == nil {
 				ch := make(chan PendingConn, 1)
